@@ -8,9 +8,10 @@ import re
 from collections import namedtuple
 
 from ural.patterns import DOMAIN_TEMPLATE
+from ural.get_hostname import get_hostname
 from ural.utils import SplitResult, safe_urlsplit, pathsplit
 
-TWITTER_DOMAINS_RE = re.compile(r"(?:twitter|x)\.com", re.I)
+TWITTER_DOMAINS_RE = re.compile(r"(?:^|\.)(?:twitter|x)\.com\s*$", re.I)
 TWITTER_URL_RE = re.compile(DOMAIN_TEMPLATE % r"(?:[^.]+\.)*(?:twitter|x)\.com", re.I)
 TWITTER_FRAGMENT_ROUTING_RE = re.compile(r"^!/?")
 TWITTER_SCREEN_NAME_BLACKLIST = {
@@ -40,10 +41,9 @@ def is_twitter_url(url):
         bool: Whether given url is from Youtube.
 
     """
-    if isinstance(url, SplitResult):
-        return bool(re.search(TWITTER_DOMAINS_RE, url.hostname))
+    hostname = get_hostname(url)
 
-    return bool(re.match(TWITTER_URL_RE, url))
+    return hostname is not None and bool(re.search(TWITTER_DOMAINS_RE, hostname))
 
 
 def normalize_screen_name(username):
